@@ -790,6 +790,159 @@ def gen_dispatch():
     return "".join(out)
 
 
+# ---------------------------------------------------------------------------
+# C07: stack-frame discipline of the hand-written Unix assembly kernels
+# ---------------------------------------------------------------------------
+ASM_FILES = ["c/blake3_sse2_x86-64_unix.S", "c/blake3_sse41_x86-64_unix.S", "c/blake3_avx2_x86-64_unix.S",
+             "c/blake3_avx512_x86-64_unix.S"]
+_PTR_WIDTH = {"byte": 1, "word": 2, "dword": 4, "qword": 8, "xmmword": 16, "ymmword": 32, "zmmword": 64}
+_CALLEE_SAVED = {"rbx": "rbx", "ebx": "rbx", "bx": "rbx", "bl": "rbx", "rbp": "rbp", "ebp": "rbp", "bp": "rbp", "bpl": "rbp"}
+for _r in ("r12", "r13", "r14", "r15"):
+    for _suf in ("", "d", "w", "b"):
+        _CALLEE_SAVED[_r + _suf] = _r
+_NO_WRITE = {"cmp", "test", "push", "jmp", "call", "ret", "bt", "prefetcht0", "prefetchnta"}
+
+
+def _asm_num(tok, name):
+    """constant expression of the form a, a*b, a+b*c ... (hex or decimal literals)"""
+    total = 0
+    for term in tok.split("+"):
+        prod = 1
+        for f in term.split("*"):
+            f = f.strip()
+            if not re.fullmatch(r"0[xX][0-9a-fA-F]+|\d+", f):
+                raise AnchorError("%s: unsupported stack offset expression %r" % (name, tok))
+            prod *= int(f, 0)
+        total += prod
+    return total
+
+
+def gen_asm_frames():
+    """For every function of the four Unix assembly files: the pushes of the prologue, the frame size N of
+    `sub rsp, N` (+ whether `and rsp, -64` follows), every memory operand based on rsp as (offset, width, is_store),
+    the pops of the epilogue, and the callee-saved general registers that appear as a destination.  Emitted as data
+    into gen/GenAsmFrames.v; Props/C07.v decides the frame discipline on it."""
+    out = [HEADER]
+    out.append("(* per function: name (ASCII), realigned?, frame size, pushes, pops (register codes: 0 rbx 1 rbp 2 r12 3 r13 4 r14 5 r15),\n"
+               "   rsp-based accesses (offset, width), callee-saved registers written *)\n")
+    regcode = {"rbx": 0, "rbp": 1, "r12": 2, "r13": 3, "r14": 4, "r15": 5}
+    rows = []
+    for rel in ASM_FILES:
+        text = src(rel)
+        lines = []
+        for raw in text.split("\n"):
+            l = raw.split("//")[0]
+            l = re.sub(r"/\*.*?\*/", " ", l).strip()
+            if not l or l.startswith("#") or l.startswith("."):
+                if l.startswith(".section") or l.startswith(".static_data") or l.startswith(".rodata"):
+                    lines.append(("directive", l))
+                continue
+            lines.append(("code", l))
+        funcs, cur = [], None
+        for kind, l in lines:
+            if kind == "directive":
+                cur = None
+                continue
+            m = re.fullmatch(r"(_?)(blake3_\w+):", l)
+            if m:
+                name = m.group(2)
+                if cur is not None and cur["name"] == name and not cur["body"]:
+                    continue
+                cur = {"name": name, "body": []}
+                funcs.append(cur)
+                continue
+            if cur is not None:
+                cur["body"].append(l)
+        if not funcs:
+            raise AnchorError("%s: no function labels found" % rel)
+        for f in funcs:
+            name, body = f["name"], f["body"]
+            pushes, pops, accesses, written = [], [], [], set()
+            frame, realigned, seen_setup = None, False, False
+            last_restore = max([i for i, l in enumerate(body) if re.fullmatch(r"mov\s+rsp\s*,\s*rbp", l)] or [-1])
+            for i, l in enumerate(body):
+                l = re.sub(r"\s+", " ", l)
+                if re.fullmatch(r"\d+:", l) or l.endswith(":"):
+                    continue
+                mm = re.fullmatch(r"(\w+)\s*(.*)", l)
+                mn, ops = mm.group(1).lower(), mm.group(2)
+                if mn == "_cet_endbr":
+                    continue
+                if mn == "push":
+                    if seen_setup:
+                        raise AnchorError("%s: push after the frame was set up" % name)
+                    pushes.append(ops.strip().lower())
+                    continue
+                if mn == "pop":
+                    pops.append(ops.strip().lower())
+                    continue
+                if re.fullmatch(r"mov rbp ?, ?rsp", l.lower()):
+                    seen_setup = True
+                    continue
+                m2 = re.fullmatch(r"sub rsp ?, ?(\w+)", l.lower())
+                if m2:
+                    if frame is not None:
+                        raise AnchorError("%s: second `sub rsp`" % name)
+                    frame = int(m2.group(1), 0)
+                    seen_setup = True
+                    continue
+                if re.fullmatch(r"and rsp ?, ?0xffffffffffffffc0", l.lower()):
+                    realigned = True
+                    continue
+                if re.fullmatch(r"mov rsp ?, ?rbp", l.lower()):
+                    continue
+                if re.search(r"\brsp\b", l) and "[" not in l:
+                    raise AnchorError("%s: unrecognised use of rsp: %s" % (name, l))
+                # rsp-based memory operands
+                oplist = [o.strip() for o in re.split(r",(?![^\[]*\])", ops)]
+                for k, o in enumerate(oplist):
+                    mo = re.search(r"\[rsp([^\]]*)\]", o)
+                    if not mo:
+                        continue
+                    ms = re.search(r"(\w+)\s+ptr\s*\[", o, re.I)
+                    if not ms or ms.group(1).lower() not in _PTR_WIDTH:
+                        raise AnchorError("%s: rsp operand without size keyword: %s" % (name, l))
+                    width = _PTR_WIDTH[ms.group(1).lower()]
+                    rest = mo.group(1).replace(" ", "")
+                    if rest.startswith("-"):
+                        raise AnchorError("%s: access below rsp: %s" % (name, l))
+                    rest = rest.lstrip("+")
+                    off = 0
+                    if rest:
+                        mi = re.fullmatch(r"(.*?)\+(\d+)\*rax", rest)
+                        if mi:
+                            # the only indexed form: a lane mask negated to 0/1 selects one of two slots
+                            prev = [re.sub(r"\s+", " ", x).lower() for x in body[max(0, i - 3):i]]
+                            if not any(x == "neg eax" for x in prev):
+                                raise AnchorError("%s: indexed stack access without the `neg eax` (0/1) pattern: %s" % (name, l))
+                            off = _asm_num(mi.group(1), name) + int(mi.group(2))
+                        else:
+                            off = _asm_num(rest, name)
+                    accesses.append((off, width))
+                # callee-saved destinations
+                if mn not in _NO_WRITE and oplist and oplist[0]:
+                    d = oplist[0].lower()
+                    if d in _CALLEE_SAVED:
+                        written.add(_CALLEE_SAVED[d])
+            for r in pushes + pops:
+                if r not in regcode:
+                    raise AnchorError("%s: push/pop of %s" % (name, r))
+            if (frame is None) != (not accesses) and frame is None:
+                frame = 0
+            rows.append((name, realigned, frame or 0, [regcode[r] for r in pushes], [regcode[r] for r in pops],
+                         sorted(set(accesses)), sorted(regcode[r] for r in written)))
+    def row(r):
+        name, re_, fr, pu, po, acc, wr = r
+        return "(%s, %s, %d, %s, %s,\n    [%s], %s)" % (
+            coq_list(list(name.encode())), "true" if re_ else "false", fr, coq_list(pu), coq_list(po),
+            "; ".join("(%d, %d)" % a for a in acc), coq_list(wr))
+    out.append("Definition asm_frames : list (list N * bool * N * list N * list N * list (N * N) * list N) :=\n  ["
+               + ";\n   ".join(row(r) for r in rows) + "].\n")
+    out.append("(* " + ", ".join("%s: frame %d, %d accesses, max end %d" % (r[0], r[2], len(r[5]), max([a + w for a, w in r[5]] or [0]))
+                                 for r in rows) + " *)\n")
+    return "".join(out)
+
+
 def write_if_changed(path, text):
     try:
         with open(path) as f:
@@ -902,7 +1055,8 @@ def gen_globals(c_objects, rs_archives, rs_crate="blake3", hook_prefixes=()):
 
 
 GENERATORS = [("GenConsts.v", gen_consts), ("GenFormulas.v", gen_formulas), ("GenTestVectors.v", gen_test_vectors),
-              ("GenDispatch.v", gen_dispatch)]
+              ("GenDispatch.v", gen_dispatch),
+              ("GenAsmFrames.v", gen_asm_frames)]
 
 
 def main():
